@@ -45,7 +45,12 @@ Fixpoint first_bad (c : config) (st : state) (steps : list (op * obs)) (n : nat)
   | [] => None
   | (o, ob) :: r =>
       let st' := apply v c st o in
-      if (Bool.eqb (is_ok (step v c st o)) (o_ok ob) && snap_ok st' ob)%bool then first_bad (cfg_after c o) st' r (S n) else Some n
+      (* an accepted upsert must have stored the pool fee the handler is expected to store *)
+      let fee_ok := match o with
+                    | OUpsert nm _ _ _ p _ _ _ fa =>
+                        match get_dapp nm st with Some d => negb (o_ok ob) || (upsert_fee v d p =? fa) | None => true end
+                    | _ => true end in
+      if (Bool.eqb (is_ok (step v c st o)) (o_ok ob) && snap_ok st' ob && fee_ok)%bool then first_bad (cfg_after c o) st' r (S n) else Some n
   end.
 Definition case_first_bad (cs : c20_case) : option nat :=
   match cs with CHist c init steps => first_bad c (init_state init) steps 0 end.
@@ -230,7 +235,7 @@ Definition other_clauses (prev ob : obs) (o : op) : list string :=
   | OJoinVerifier _ _ _ => cl "frame" (same_state prev ob)
   (* a passed upsert proposal changes the description of a dApp, never bonds or balances; what it may do to
      TotalBond is judged by total-sum / held / pool-native *)
-  | OUpsert _ _ _ _ _ _ _ => cl "frame" (same_money prev ob None)
+  | OUpsert _ _ _ _ _ _ _ _ _ => cl "frame" (same_money prev ob None)
   | _ => []
   end.
 
